@@ -30,7 +30,9 @@ Vals == << << <<T("plain"), W(" "), T("value")>> >>,
            << <<T("~Uber"), W(" "), T("caf~E")>> >>,
            << <<T("two"), W("  "), T("spaces"), W("\t"), T("tab")>> >>,
            << <<T("first")>>, <<T("second")>>, <<T("third&")>> >>,
-           << <<T("C:\\dir\\"), W(" "), T("My"), W(" "), T("App\\bin")>> >> >>            \* backslashes, one of them before a space
+           << <<T("C:\\dir\\"), W(" "), T("My"), W(" "), T("App\\bin")>> >>,
+           \* a line that ends in two spaces, continued by a line indented by ONE space that looks like a key of its own
+           << <<T("first"), W(" "), T("line"), W("  ")>>, <<W(" "), T("note:"), W(" "), T("continues")>> >> >>            \* backslashes, one of them before a space
 Bodies == << "", "Body paragraph.\n", "# Heading\n\ntext: with colon\n", "Note: this first paragraph looks like a key\nsecond line\n\n# Heading\n" >>
 \* update values (single line)
 UVals == << <<T("new")>>, <<T("a"), W(" "), T("longer"), W(" "), T("replacement"), W(" "), T("&"), W(" "), T("more")>>, <<T("10:30")>>, <<T("x")>>, <<>>, <<T("a\\"), W(" "), T("b\\c")>> >>
@@ -39,7 +41,8 @@ UVals == << <<T("new")>>, <<T("a"), W(" "), T("longer"), W(" "), T("replacement"
 RECURSIVE Cat(_)
 Cat(ss) == IF ss = <<>> THEN "" ELSE Head(ss) \o Cat(Tail(ss))
 LineSrc(line) == Cat([i \in 1 .. Len(line) |-> line[i].s])
-ValSrc(v) == LineSrc(v[1]) \o "\n" \o Cat([i \in 1 .. (Len(v) - 1) |-> "    " \o LineSrc(v[i + 1]) \o "\n"])
+\* (a continuation line is indented by four spaces, or by the white space it starts with itself)
+ValSrc(v) == LineSrc(v[1]) \o "\n" \o Cat([i \in 1 .. (Len(v) - 1) |-> (IF v[i + 1][1].w THEN "" ELSE "    ") \o LineSrc(v[i + 1]) \o "\n"])
 EntrySrc(e) == Keys[e.k].s \o ": " \o ValSrc(Vals[e.v])
 BlockSrc(d) == (IF d.fence THEN "---\n" ELSE "") \o Cat([i \in 1 .. Len(d.entries) |-> EntrySrc(d.entries[i])]) \o (IF d.fence THEN "---\n" ELSE "")
 \* terminators: 1 = blank line then body, 2 = end of input after the final newline, 3 = end of input without a final newline
